@@ -36,14 +36,15 @@ const (
 	opRange    // range check of a small value to K bits (no new value: appends a copy)
 	opInverse  // 1/a generated only when eval(a) != 0
 	opBoolScaled // AssertIsBoolean(K * in[A]) on a free input shaped so that K*in[A] is 0 or 1; value K*in[A]
+	opLazyInv    // r = hint(a): 1/a, or the (documented) zero default of an output the hint leaves untouched when a == 0
 	numOps
 )
 
 // heavy operations (full bit decompositions) are drawn less often
 var opWeights = []int{opAdd, opAdd, opSub, opSub, opMul, opMul, opMul, opMulConst, opMulConst, opAddConst, opAddConst, opNeg, opDiv, opDiv, opIsZero, opIsZero,
-	opSelect, opSelect, opLowBits, opBitOp, opLookup, opLookup, opHintSq, opHintSq, opWide, opMulAcc, opMulAcc, opCmpSmall, opRange, opInverse, opInverse}
+	opSelect, opSelect, opLowBits, opBitOp, opLookup, opLookup, opHintSq, opHintSq, opWide, opMulAcc, opMulAcc, opCmpSmall, opRange, opInverse, opInverse, opLazyInv, opLazyInv}
 
-var opNames = []string{"add", "sub", "mul", "mulc", "addc", "neg", "div", "iszero", "select", "lowbits", "bitop", "lookup", "hintsq", "wide", "mulacc", "cmp", "range", "inv", "boolscaled"}
+var opNames = []string{"add", "sub", "mul", "mulc", "addc", "neg", "div", "iszero", "select", "lowbits", "bitop", "lookup", "hintsq", "wide", "mulacc", "cmp", "range", "inv", "boolscaled", "lazyinv"}
 
 type Op struct {
 	Kind    int
@@ -130,7 +131,16 @@ func squareHint(q *big.Int, in, out []*big.Int) error {
 	return nil
 }
 
-func init() { solver.RegisterHint(squareHint) }
+// lazyInvHint writes its output only when there is an inverse; for 0 it relies on the outputs
+// being handed over initialised (to zero), as the Hint documentation states.
+func lazyInvHint(q *big.Int, in, out []*big.Int) error {
+	if new(big.Int).Mod(in[0], q).Sign() != 0 {
+		out[0].ModInverse(in[0], q)
+	}
+	return nil
+}
+
+func init() { solver.RegisterHint(squareHint, lazyInvHint) }
 
 // GenProg draws a program from the tape. q is needed because op validity (division by
 // zero) depends on the values, which are drawn together with the program.
@@ -210,7 +220,7 @@ func GenProg(tape *simrt.Tape, q *big.Int, feat GenFeat) (*Prog, []*big.Int) {
 				o.K = 2
 			}
 			o.B = ch(n - o.K + 1)
-		case opHintSq:
+		case opHintSq, opLazyInv:
 			if !feat.Hint {
 				continue
 			}
@@ -361,6 +371,10 @@ func evalOp(o Op, v []*big.Int, q *big.Int) *big.Int {
 		r.Set(v[o.B+idx])
 	case opHintSq:
 		r.Mul(a, a)
+	case opLazyInv:
+		if new(big.Int).Mod(a, q).Sign() != 0 {
+			r.ModInverse(a, q)
+		}
 	case opWide:
 		n := len(v)
 		for i := 0; i < o.K; i++ {
@@ -467,6 +481,16 @@ func (c *GC) Define(api frontend.API) error {
 				return err
 			}
 			api.AssertIsEqual(h[0], api.Mul(v[o.A], v[o.A]))
+			r = h[0]
+		case opLazyInv:
+			h, err := api.NewHint(lazyInvHint, 1, v[o.A])
+			if err != nil {
+				return err
+			}
+			// a*(a*h - 1) == 0 and h*(a*h - 1) == 0: h is 1/a, or 0 when a is 0
+			t := api.Sub(api.Mul(v[o.A], h[0]), 1)
+			api.AssertIsEqual(api.Mul(v[o.A], t), 0)
+			api.AssertIsEqual(api.Mul(h[0], t), 0)
 			r = h[0]
 		case opWide:
 			n := len(v)
